@@ -42,6 +42,18 @@ Theorem terminates_at : forall c S0 inp pop0,
 Proof. exact terminates_at_lemma. Qed.
 Print Assumptions terminates_at.
 
+(* The multi-agent on-policy loop budgets the steps summed over the population (N = population size): exactly the
+   first G with N * G * S >= max_steps generations. *)
+Theorem terminates_at_summed_budget : forall c S0 inp pop0,
+  lp c = MAOn -> target c = None -> 0 < S0 -> 1 <= tour_pop c -> length pop0 = tour_pop c ->
+  Forall (fun a => cur a = 0) pop0 ->
+  stream_ok (hp_steps c S0) (tour_pop c) inp ->
+  exists st' G, run (max_steps c + 1) c (init_state pop0) inp 0 = Some (st', G) /\
+                Forall (fun a => cur a = G * S0) (pop st') /\
+                max_steps c <= tour_pop c * (G * S0) /\ (G = 0 \/ tour_pop c * ((G - 1) * S0) < max_steps c).
+Proof. exact terminates_at_sum_lemma. Qed.
+Print Assumptions terminates_at_summed_budget.
+
 (* Any loop (also the population-summed budget of the multi-agent on-policy loop, heterogeneous learn_step, early
    stop): if every training phase adds at least one step, max_steps generations of fuel suffice. *)
 Theorem terminates : forall c inp,
@@ -88,24 +100,32 @@ Theorem pop_size_and_indices : forall c inp fuel pop0 st' G,
 Proof. exact pop_size_and_indices_lemma. Qed.
 Print Assumptions pop_size_and_indices.
 
-(* With elitism member 0 of the selected population is the individual with the greatest mean fitness, unchanged
-   (same index, step history, fitness history, lineage). *)
+(* With elitism member 0 of the selected population is the individual kept as elite, unchanged (same index, step
+   history, fitness history, lineage), and — its position passing [elite_okb] — no individual has a greater mean
+   fitness. (Which of several individuals with the same maximal mean is kept depends on np.argsort's tie order and is
+   an input of the model.) *)
 Theorem elite_carried : forall c pop ps,
-  elitism c = true -> pop <> [] ->
-  let e := nth (elite_pos c pop) pop dflt in
-  elite_pos c pop < length pop /\
+  elitism c = true -> elite_okb c pop (nth 0 ps 0) = true ->
+  let e := nth (nth 0 ps 0) pop dflt in
   hd dflt (select c pop ps) = e /\ In e pop /\
   forall a, In a pop -> (mean_last (eval_loop c) a <= mean_last (eval_loop c) e)%Q.
 Proof. exact elite_carried_lemma. Qed.
 Print Assumptions elite_carried.
 
-(* ... and inside the loop: whenever a generation reports an elite position e, the next generation starts with
-   exactly individual e of the evaluated population in front, and nobody had a greater mean fitness. *)
-Theorem elite_carried_into_next_generation : forall c st inp e,
-  pop st <> [] -> o_elite (snd (gen c st inp)) = Some e ->
+(* the requirement on the elite is satisfiable for every non-empty population (the last maximal individual meets it) *)
+Theorem elite_choice_exists : forall c pop, pop <> [] -> elite_okb c pop (elite_pos c pop) = true.
+Proof. exact elite_pos_ok. Qed.
+Print Assumptions elite_choice_exists.
+
+(* ... and inside the loop: whenever selection with elitism ran and the generation reports a valid elite, the next
+   generation starts with exactly that individual of the evaluated population in front, and nobody had a greater
+   mean fitness. *)
+Theorem elite_carried_into_next_generation : forall c st inp,
+  elitism c = true -> o_evolved (snd (gen c st inp)) = true -> o_elite_ok (snd (gen c st inp)) = true ->
   let p2 := o_tested (snd (gen c st inp)) in
-  e < length p2 /\ hd dflt (pop (fst (gen c st inp))) = nth e p2 dflt /\
-  forall a, In a p2 -> (mean_last (eval_loop c) a <= mean_last (eval_loop c) (nth e p2 dflt))%Q.
+  let e := nth (nth 0 (g_parents inp) 0) p2 dflt in
+  hd dflt (pop (fst (gen c st inp))) = e /\ In e p2 /\
+  forall a, In a p2 -> (mean_last (eval_loop c) a <= mean_last (eval_loop c) e)%Q.
 Proof. exact gen_elite_lemma. Qed.
 Print Assumptions elite_carried_into_next_generation.
 
@@ -135,12 +155,35 @@ Theorem bandit_learn_schedule : forall c h n m r,
 Proof. exact bandit_schedule_lemma. Qed.
 Print Assumptions bandit_learn_schedule.
 
+(* Early stop: it is taken only when a target is set, every individual's mean over its last 10 fitness values exceeds
+   it and member 0 has at least 100 steps entries (99 completed generations); the evaluated population is returned as is. *)
+Theorem early_stop_sound : forall c st inp,
+  o_stop (snd (gen c st inp)) = true ->
+  let p2 := o_tested (snd (gen c st inp)) in
+  pop (fst (gen c st inp)) = p2 /\
+  exists t, target c = Some t /\
+            (forall a, In a p2 -> (t < mean_last 10 a)%Q) /\
+            100 <= length (stp (hd dflt p2)).
+Proof. exact early_stop_sound_lemma. Qed.
+Print Assumptions early_stop_sound.
+
+(* Checkpoints (uniform loops, frequency k = checkpoint > 0): when the loop returns after G generations exactly
+   min(G, G*S // k) checkpoints were written — one per crossed multiple of the frequency, at most one per generation. *)
+Theorem checkpoint_count : forall c S0 inp pop0 fuel st' G,
+  target c = None -> 0 < checkpoint c -> 1 <= tour_pop c -> length pop0 = tour_pop c ->
+  Forall (fun a => cur a = 0) pop0 ->
+  stream_ok (hp_steps c S0) (tour_pop c) inp ->
+  run fuel c (init_state pop0) inp 0 = Some (st', G) ->
+  ck_count st' = Nat.min G (G * S0 / checkpoint c).
+Proof. exact checkpoint_count_lemma. Qed.
+Print Assumptions checkpoint_count.
+
 (* ---- non-vacuity: concrete runs of the model ---- *)
 Definition cfg_off : cfg :=
   {| lp := Off; num_envs := 2; evo_steps := 9; max_steps := 20; episode_steps := 0; delay := 0; mem_cap := 16;
      nstep := 0; checkpoint := 8; evolve := true; elitism := true; tour_pop := 2; eval_loop := 1; target := None |}.
 Definition inp_off (g : nat) : ginput :=
-  {| g_hps := [{| ls := 3; bs := 4 |}; {| ls := 1; bs := 4 |}]; g_fit := [1 # 2; 3 # 4]%Q; g_parents := [g mod 2] |}.
+  {| g_hps := [{| ls := 3; bs := 4 |}; {| ls := 1; bs := 4 |}]; g_fit := [1 # 2; 3 # 4]%Q; g_parents := [1; g mod 2] |}.
 
 (* 9 // 2 * 2 = 8 steps per generation, budget 20 -> 3 generations, counters 24 *)
 Example terminates_at_nonvacuous :
@@ -153,12 +196,17 @@ Example stream_ok_nonvacuous : stream_ok (hp_steps cfg_off 8) 2 inp_off.
 Proof.
   intros g. split.
   - intros h [<-|[<-|[<-|[]]]]; reflexivity.
-  - intros j. unfold inp_off. cbn [g_parents]. destruct j as [|[|j]]; cbn [nth]; try lia.
+  - intros j. unfold inp_off. cbn [g_parents]. destruct j as [|[|[|j]]]; cbn [nth]; try lia.
     pose proof (Nat.mod_upper_bound g 2). lia.
 Qed.
 
 (* learn schedule of the first individual: learn_step 3 > num_envs 2 -> every step (3 // 2 = 1) once 4 transitions
    are stored, i.e. from the second of its 4 steps on; the second individual learns 2 // 1 = 2 times per step *)
+Example elite_ok_example :
+  o_elite_ok (snd (gen cfg_off (init_state [fresh_agent 0; fresh_agent 1]) (inp_off 0))) = true /\
+  elite_okb cfg_off (o_tested (snd (gen cfg_off (init_state [fresh_agent 0; fresh_agent 1]) (inp_off 0)))) 0 = false.
+Proof. vm_compute. split; reflexivity. Qed.
+
 Example learn_schedule_example :
   map r_learn (o_roll (snd (gen cfg_off (init_state [fresh_agent 0; fresh_agent 1]) (inp_off 0)))) = [3; 8].
 Proof. vm_compute. reflexivity. Qed.
@@ -178,3 +226,13 @@ Example no_progress_example :
             nstep := 0; checkpoint := 0; evolve := false; elitism := true; tour_pop := 1; eval_loop := 1; target := None |}
       (init_state [fresh_agent 0]) (fun _ => {| g_hps := []; g_fit := []; g_parents := [] |}) 0 = None.
 Proof. vm_compute. reflexivity. Qed.
+
+(* early stop: fitness 1 > target 1/2 for everybody -> stops after 99 generations (len(steps) = 100), budget 150 not met *)
+Example early_stop_example :
+  exists st, run 200 {| lp := Bandit; num_envs := 1; evo_steps := 50; max_steps := 150; episode_steps := 1; delay := 0;
+                         mem_cap := 64; nstep := 0; checkpoint := 0; evolve := false; elitism := true; tour_pop := 2;
+                         eval_loop := 1; target := Some (1 # 2)%Q |}
+               (init_state [fresh_agent 0; fresh_agent 1])
+               (fun _ => {| g_hps := [{| ls := 1; bs := 4 |}; {| ls := 1; bs := 4 |}]; g_fit := [1; 1]%Q; g_parents := [] |}) 0
+             = Some (st, 99) /\ map cur (pop st) = [99; 99].
+Proof. eexists. vm_compute. repeat split. Qed.
